@@ -1,6 +1,6 @@
 (** C04 — Prediction step is x' = f(x,u), P' = G P G^T + V M V^T. *)
 From mathcomp Require Import all_ssreflect all_algebra.
-From FV Require Import Theory.Psd gen.EkfA Proofs.Ekf.
+From FV Require Import Theory.Psd Theory.Diag gen.EkfA Proofs.Ekf.
 Set Implicit Arguments. Unset Strict Implicit. Unset Printing Implicit Defensive.
 Import GRing.Theory Num.Theory.
 Local Open Scope ring_scope.
@@ -17,5 +17,12 @@ Theorem C04_predict_valid : forall (F : realFieldType) (n c : nat)
   valid P -> valid M -> valid (py_process_model_cov G V P M).
 Proof. exact py_predict_valid. Qed.
 
+(** the premise [valid M] is met by what the filter is built from: per-control noise values that validation
+    admits (non-negative) assemble (Props/C04_glue.v) to a diagonal matrix, which is symmetric PSD *)
+Theorem C04_nonnegative_diagonal_noise_is_valid : forall (F : realFieldType) (c : nat) (d : 'rV[F]_c),
+  (forall i, 0 <= d 0 i) -> valid (diag_mx d).
+Proof. exact diag_valid. Qed.
+
 Print Assumptions C04_predict_spec.
+Print Assumptions C04_nonnegative_diagonal_noise_is_valid.
 Print Assumptions C04_predict_valid.
